@@ -63,6 +63,8 @@ int vp_use(int x, char const* str, int* ip)
   dw2 = *dw;
   dw2 = std::move(*dw);
   trompeloeil::deathwatched<vp_D> dw3(std::move(dw2));
+  trompeloeil::deathwatched<vp_D> const& dwc = dw3;
+  trompeloeil::deathwatched<vp_D> dw4(dwc);          // copy from a const lvalue: the implicit copy constructor, not the forwarding one
   delete dw;
 
   // scalar matchers / combinators at int and pointer operand types
